@@ -4,8 +4,10 @@
    dumps and loads, repr / literal_eval of surrogate strings, base64) is outside the model: see the
    trusted base.  Schema validity is decided by the check's independent validator on every document. *)
 From PCD Require Import Base.PyBase Model.Args Model.Data Model.Consts Model.Json Model.JsonFields
-  Proofs.C07_Statements Proofs.JsonProofs Gen.SrcFields.
+  Proofs.C07_Statements Proofs.JsonProofs Gen.SrcFields Spec.JsonSchema Gen.SrcSchema Proofs.SchemaProofs.
 From PCD Require Gen.Src.
+From Coq Require Import String.
+Open Scope list_scope.
 
 (* loading the JSON form gives equal data (all NaNs identified) for every value whose integer fields
    are JSON-safe, at any nesting of code constants and for every constant kind *)
@@ -48,3 +50,29 @@ Proof. vm_compute. reflexivity. Qed.
 Example C07_integer_bounds_match_the_source :
   PCD.Gen.Src.MIN_INTEGER = MIN_INTEGER /\ PCD.Gen.Src.MAX_INTEGER = MAX_INTEGER.
 Proof. split; vm_compute; reflexivity. Qed.
+
+(* Schema validity.  JSON_SCHEMA below is Gen/SrcSchema.v: the dictionary code_data/__init__.py defines,
+   re-translated into a Coq term on every run; validate is the JSON-Schema validator of
+   Spec/JsonSchema.v (type, properties, required, items, anyOf, enum, $ref; compared with the harness's
+   independent Python validator on corrupted documents on every run).  For EVERY datum whose integers are
+   in the interchange range (wfj_cd, the premise of the round-trip theorem) the document to_json_data
+   produces validates against the published schema - any nesting of tuples, frozensets and code, any
+   strings, any private fields; the fuel is an explicit function of the nesting depth. *)
+Theorem C07_json_validates_against_the_published_schema : forall d,
+  wfj_cd d = true ->
+  validate (schema_fuel d) SrcSchema.JSON_SCHEMA SrcSchema.JSON_SCHEMA (code_data_to_json d) = true.
+Proof. exact json_schema_valid. Qed.
+Print Assumptions C07_json_validates_against_the_published_schema.
+
+(* more fuel never turns a valid document invalid: the bound above is not an artefact *)
+Theorem C07_validation_is_monotone_in_fuel : forall f f' root sch v,
+  (f <= f')%nat -> validate f root sch v = true -> validate f' root sch v = true.
+Proof. exact validate_mono. Qed.
+Print Assumptions C07_validation_is_monotone_in_fuel.
+
+(* the validator is not trivially true: documents outside the schema are rejected for every fuel up to 59 *)
+Example C07_schema_rejects_bad_documents :
+  forallb (fun f => negb (validate f SrcSchema.JSON_SCHEMA SrcSchema.JSON_SCHEMA
+                            (JObj [(lit "blocks"%string, JList []); (lit "filename"%string, JInt 3)])))
+          (seq 0 60) = true.
+Proof. vm_compute. reflexivity. Qed.
